@@ -201,6 +201,7 @@ def replay(body):
 def run(ctx):
     rng = ctx.rng
     ctx.check_theorems()
+    ctx.check_generated(['vmatch', 'vidx', 'vfit'])
     # (K) model vs implementation
     exprs, meta = [], []
     for k in range(ctx.n(60, 600)):
